@@ -178,6 +178,10 @@ CHECKS = {
 
 
 # ---- entries proposed alongside the props packages (harness/props/<pkg>/config_entry.py define a dict named like the id)
+# packages whose entries the maintainer has integrated (an entry file of a package still being built is ignored)
+INTEGRATED = {"C02", "C06", "C09", "C10", "C13", "C14", "C16", "C17", "C19"}
+
+
 def _load_entries():
     import glob, os, re
     here = os.path.dirname(os.path.abspath(__file__))
@@ -187,11 +191,11 @@ def _load_entries():
         for k, v in list(ns.items()):
             if k.startswith("__") or not isinstance(v, dict):
                 continue
-            if re.fullmatch(r"C\d\d", k) and k not in CHECKS:
+            if re.fullmatch(r"C\d\d", k) and k not in CHECKS and k in INTEGRATED:
                 CHECKS[k] = v
             elif v and all(isinstance(kk, str) and re.fullmatch(r"C\d\d", kk) and isinstance(vv, dict) for kk, vv in v.items()):
                 for kk, vv in v.items():
-                    if kk not in CHECKS:
+                    if kk not in CHECKS and kk in INTEGRATED:
                         CHECKS[kk] = vv
 
 
